@@ -98,9 +98,12 @@ template <typename T> static long long err_ulps(T got, __int128 exact, __int128 
     return (long long) std::ceil(diff / ulp);
 }
 
-template <typename T> static void real_run(int family, long long N, unsigned long long seed)
+template <typename T> static void real_run(int family, long long N, unsigned long long seed, bool huge = false)
 {
     int const e = 20; // values are integers * 2^-20
+    // huge: every value is scaled by a power of two that puts it above the square root of the largest finite number (the squares overflow,
+    // the values and their sum are as finite as before)
+    int const shift = huge ? std::numeric_limits<T>::max_exponent / 2 + 24 : 0;
     seqgen<T> gen(family, N, seed);
     std::vector<long long> vals((std::size_t) N);
     // distribution 0 is two-dimensional (2 x 2 bins), distribution 1 has two bins: call i goes to distribution i % 2, bin (i / 2) % (number of bins)
@@ -118,7 +121,7 @@ template <typename T> static void real_run(int family, long long N, unsigned lon
     long long idx = 0;
     auto f = [&](hep::mc_point<T> const&, hep::projector<T>& pr) {
         long long i = idx++;
-        T v = std::ldexp((T) vals[(std::size_t) i], -e);
+        T v = std::ldexp((T) vals[(std::size_t) i], -e + shift);
         if (i % 2 == 0) { long long b = (i / 2) % 4; pr.add(0, T(0.25) + T(0.5) * T(b % 2), T(0.25) + T(0.5) * T(b / 2), v); }
         else pr.add(1, T(0.25) + T(0.5) * T((i / 2) % 2), v);
         // (distribution 2 has wide bins: [0, 2048) in two bins of size 1024)
@@ -134,11 +137,11 @@ template <typename T> static void real_run(int family, long long N, unsigned lon
         for (int b = 0; b != (d == 0 ? 4 : 2); ++b)
         {
             // the bin stores sum / bin size (0.25, 0.5 resp. 1024): multiply back (exact)
-            T s = res.distributions()[(std::size_t) d].results()[(std::size_t) b].sum() * (d == 0 ? T(0.25) : (d == 1 ? T(0.5) : T(1024)));
+            T s = std::ldexp(res.distributions()[(std::size_t) d].results()[(std::size_t) b].sum() * (d == 0 ? T(0.25) : (d == 1 ? T(0.5) : T(1024))), -shift);
             bins.push_back(err_ulps<T>(s, bexact[d][b], babs[d][b] ? babs[d][b] : 1, e));
         }
-    ev("SumCheck").s("T", type_name<T>::get()).s("family", famname(family)).i("N", N).i("errUlps", err_ulps<T>(res.sum(), exact, abssum ? abssum : 1, e))
-        .a("binErrUlps", bins).emit();
+    ev("SumCheck").s("T", type_name<T>::get()).s("family", std::string(famname(family)) + (huge ? "-huge" : "")).i("N", N)
+        .i("errUlps", err_ulps<T>(std::ldexp(res.sum(), -shift), exact, abssum ? abssum : 1, e)).a("binErrUlps", bins).emit();
 }
 
 // very many contributions to the same bin within a single call: 1 followed by 4096 values of a quarter ulp of 1 - every single one of
@@ -167,6 +170,7 @@ template <typename T> static void real_family(rng& g, bool thorough)
     std::vector<long long> Ns{1, 1000, 100000};
     if (thorough) { Ns.push_back(3000000); Ns.push_back(10000000); }
     for (int f = 0; f != 5; ++f) for (long long N : Ns) real_run<T>(f, N, g.next());
+    for (int f = 0; f != 5; ++f) real_run<T>(f, 1000, g.next(), true);
     many_adds<T>(thorough ? 4000 : 800);
 }
 
